@@ -174,13 +174,39 @@ func topZnFrame(stack string) string {
 	return "?"
 }
 
+// budgetSite - innermost parser production that was spinning when the budget ran out
+func budgetSite(stack string) string {
+	for _, ln := range strings.Split(stack, "\n") {
+		ln = strings.TrimSpace(ln)
+		if !strings.HasPrefix(ln, "github.com/DemoHn/Zn/pkg/syntax/zh.") {
+			continue
+		}
+		fn := strings.TrimPrefix(ln, "github.com/DemoHn/Zn/pkg/syntax/zh.")
+		if i := strings.Index(fn, "("); i > 0 && !strings.HasPrefix(fn, "(") {
+			fn = fn[:i]
+		}
+		if strings.Contains(fn, "verifTick") || strings.Contains(fn, "tryConsume") || strings.Contains(fn, ").consume") || strings.Contains(fn, "parseItemListBlock") {
+			continue
+		}
+		for {
+			j := strings.LastIndex(fn, ".func")
+			if j < 0 {
+				break
+			}
+			fn = fn[:j]
+		}
+		return "parser:" + fn
+	}
+	return "parser"
+}
+
 // Guard - run fn; convert panics into (kind, msg, site)
 func Guard(fn func()) (kind string, msg string, site string) {
 	defer func() {
 		if rec := recover(); rec != nil {
 			switch v := rec.(type) {
 			case zh.VerifBudgetExceeded:
-				kind, msg, site = KBudget, fmt.Sprintf("parser ticks=%d", v.Ticks), "parser"
+				kind, msg, site = KBudget, fmt.Sprintf("parser ticks=%d", v.Ticks), budgetSite(string(debug.Stack()))
 			case exec.VerifBudgetExceeded:
 				kind, msg, site = KBudget, fmt.Sprintf("evaluator ticks=%d depth=%d", v.Ticks, v.Depth), "evaluator"
 			default:
